@@ -4,6 +4,7 @@ package main
 
 import (
 	"fmt"
+	"go/token"
 	"go/types"
 	"strings"
 
@@ -255,16 +256,30 @@ func (e *Enc) builtin(x *ssa.Call, b *ssa.Builtin, cc *callCtx) {
 // shorter view only in the patterns it can see (none in the functions under contract).
 func (e *Enc) appendBuiltin(x *ssa.Call, cc *callCtx) {
 	g := e.g()
-	// in-place append through a shorter view of a live slice: value semantics are only faithful when the original slice is
-	// not read again. Inside a loop that continues afterwards (range over the same backing array) it is outside the subset.
+	// in-place append through a shorter view of a slice writes the shared backing array. Value semantics are faithful only
+	// if no alias of that backing array is read afterwards; otherwise the function is outside the subset.
 	if sl, ok := cc.args[0].(*ssa.Slice); ok && sl.High != nil {
-		if _, isSlice := types.Unalias(sl.X.Type()).Underlying().(*types.Slice); isSlice && e.loopDepthOf(x.Block()) > 0 {
-			leaves := false
-			if len(x.Block().Succs) == 1 {
-				leaves = e.loopDepthOf(x.Block().Succs[0]) < e.loopDepthOf(x.Block())
+		if _, isSlice := types.Unalias(sl.X.Type()).Underlying().(*types.Slice); isSlice {
+			if u := aliasReadAfter(x, sl.X); u != "" {
+				e.r.errorf("outside subset: in-place append through a sub-slice while an alias of the backing array is still read (%s) in %s", u, e.fn.Name())
 			}
-			if !leaves {
-				e.r.errorf("outside subset: in-place append through a sub-slice inside a loop that continues (aliasing of the backing array) in %s", e.fn.Name())
+		}
+	}
+	// idiom append(s[:i], s[i+1:]...): removal of element i, encoded with a single quantified definition
+	if s0, ok := cc.args[0].(*ssa.Slice); ok && s0.Low == nil && s0.High != nil {
+		if s1, ok := cc.args[1].(*ssa.Slice); ok && s1.X == s0.X && s1.High == nil && s1.Low != nil {
+			if add, ok := s1.Low.(*ssa.BinOp); ok && add.Op == token.ADD && add.X == s0.High {
+				if c, ok := constInt(add.Y); ok && c == 1 {
+					srt := g.SortOf(x.Type())
+					es := g.sliceElem[srt]
+					old := e.val(s0.X)
+					i := e.val(s0.High)
+					arr := e.r.decl(e.r.fresh(e.name(x)+"_arr"), fmt.Sprintf("(Array Int %s)", es))
+					e.r.assume(fmt.Sprintf("(forall ((k!a Int)) (! (= (select %s k!a) (ite (< k!a %s) (select (%s_arr %s) k!a) (select (%s_arr %s) (+ k!a 1)))) :pattern ((select %s k!a))))",
+						arr, i, srt, old, srt, old, arr))
+					e.vals[x] = e.r.def(e.name(x), srt, fmt.Sprintf("(mk_%s %s (- (%s_len %s) 1) false)", srt, arr, srt, old))
+					return
+				}
 			}
 		}
 	}
@@ -703,3 +718,125 @@ func (e *Enc) callSiteAsserts(x *ssa.Call, cc *callCtx) {
 // isAccessorLike: scaffolded accessors generated by the "accessor" macro are verified with nopanic semantics implicitly
 // (their bodies contain no panicking operation other than store access, see verify.go: accessors are always nopanic).
 func isAccessorLike(ct *Contract) bool { return ct.Accessor }
+
+// ---- aliasing check for in-place appends
+
+func sliceBase(v ssa.Value) ssa.Value {
+	for {
+		sl, ok := v.(*ssa.Slice)
+		if !ok {
+			return v
+		}
+		if _, isSlice := types.Unalias(sl.X.Type()).Underlying().(*types.Slice); !isSlice {
+			return v
+		}
+		v = sl.X
+	}
+}
+
+// addrSig: a textual signature of an address expression built from an Alloc/parameter and field selections.
+func addrSig(v ssa.Value) string {
+	switch a := v.(type) {
+	case *ssa.FieldAddr:
+		return addrSig(a.X) + fmt.Sprintf(".%d", a.Field)
+	case *ssa.Alloc, *ssa.Parameter, *ssa.Global:
+		return v.Name()
+	}
+	return ""
+}
+
+// aliasReadAfter reports a use of a may-alias of slice value X that can execute after the append instruction p.
+func aliasReadAfter(p *ssa.Call, X ssa.Value) string {
+	fn := p.Parent()
+	base := sliceBase(X)
+	aliases := map[ssa.Value]bool{base: true}
+	if ld, ok := base.(*ssa.UnOp); ok {
+		if sig := addrSig(ld.X); sig != "" {
+			for _, b := range fn.Blocks {
+				for _, ins := range b.Instrs {
+					if u, ok := ins.(*ssa.UnOp); ok && addrSig(u.X) == sig && types.Identical(u.Type(), ld.Type()) {
+						aliases[u] = true
+					}
+				}
+			}
+		}
+	}
+	// derived sub-slices
+	changed := true
+	for changed {
+		changed = false
+		for _, b := range fn.Blocks {
+			for _, ins := range b.Instrs {
+				if sl, ok := ins.(*ssa.Slice); ok && aliases[sl.X] && !aliases[sl] {
+					aliases[sl] = true
+					changed = true
+				}
+			}
+		}
+	}
+	isArg := map[ssa.Value]bool{}
+	for _, a := range p.Call.Args {
+		isArg[a] = true
+	}
+	for al := range aliases {
+		var defBlock *ssa.BasicBlock
+		if ins, ok := al.(ssa.Instruction); ok {
+			defBlock = ins.Block()
+		}
+		refs := al.Referrers()
+		if refs == nil {
+			continue
+		}
+		for _, u := range *refs {
+			if u == ssa.Instruction(p) {
+				continue
+			}
+			if sl, ok := u.(*ssa.Slice); ok && aliases[sl] {
+				continue // creating a sub-slice is not a read; its own uses are checked
+			}
+			if _, ok := u.(*ssa.DebugRef); ok {
+				continue
+			}
+			if reachesAfter(p, u, defBlock) {
+				return fmt.Sprintf("%s used by %s", al.Name(), u.String())
+			}
+		}
+	}
+	return ""
+}
+
+// reachesAfter: can instruction u execute after p without passing through the entry of stop (the alias's definition block)?
+func reachesAfter(p ssa.Instruction, u ssa.Instruction, stop *ssa.BasicBlock) bool {
+	pb, ub := p.Block(), u.Block()
+	idx := func(b *ssa.BasicBlock, i ssa.Instruction) int {
+		for k, x := range b.Instrs {
+			if x == i {
+				return k
+			}
+		}
+		return -1
+	}
+	if pb == ub && idx(pb, u) > idx(pb, p) {
+		return true
+	}
+	seen := map[*ssa.BasicBlock]bool{}
+	stack := append([]*ssa.BasicBlock{}, pb.Succs...)
+	for len(stack) > 0 {
+		b := stack[len(stack)-1]
+		stack = stack[:len(stack)-1]
+		if seen[b] {
+			continue
+		}
+		seen[b] = true
+		if b == stop {
+			// re-entering the definition block gives a new version of a phi; for a value defined by an ordinary instruction the
+			// uses located in the definition block after the definition still see the re-evaluated value
+			continue
+		}
+		if b == ub {
+			return true
+		}
+		stack = append(stack, b.Succs...)
+	}
+	return false
+}
